@@ -342,20 +342,23 @@ impl<'tcx> Cx<'tcx> {
                 // switch's `otherwise` edge is dead)
                 let pty = p.ty(&body.local_decls, self.tcx).ty;
                 let mut vals: Vec<String> = Vec::new();
+                let mut vnames: Vec<String> = Vec::new();
                 let mut ety = String::new();
                 if let ty::Adt(adt, _) = pty.kind() {
                     if adt.is_enum() {
                         ety = self.def_path(adt.did());
-                        for (vidx, _) in adt.variants().iter_enumerated() {
+                        for (vidx, v) in adt.variants().iter_enumerated() {
                             vals.push(js(&format!("{}", adt.discriminant_for_variant(self.tcx, vidx).val)));
+                            vnames.push(js(&v.name.to_string()));
                         }
                     }
                 }
                 format!(
-                    "{{\"r\":\"discr\",\"p\":{},\"enum\":{},\"vals\":{}}}",
+                    "{{\"r\":\"discr\",\"p\":{},\"enum\":{},\"vals\":{},\"vnames\":{}}}",
                     self.place(body, p),
                     js(&ety),
-                    jlist(&vals)
+                    jlist(&vals),
+                    jlist(&vnames)
                 )
             }
             Rvalue::CopyForDeref(p) => format!("{{\"r\":\"use\",\"o\":{{\"c\":{}}},\"cfd\":true}}", self.place(body, p)),
